@@ -313,7 +313,7 @@ def MSt.setSlot (s : MSt) (i : Nat) (v : Val) : Option MSt :=
       some { s with fr := { s.fr with slots := s.fr.slots.set i v } }
     else none
 
-def MSt.echo (s : MSt) (v : Val) : MSt := { s with out := s.out ++ [v.toStr] }
+def MSt.echo (s : MSt) (v : Val) : MSt := { s with out := v.toStr :: s.out }
 
 inductive Ctl where
   | brk (level : Nat)
@@ -650,9 +650,9 @@ open Spec.Ctl (Status)
 /-- Program.GetValue: Return ends the program, any other control is reported as an error -/
 def runM (p : MProg) (fuel : Nat) : Option (List String × Status) :=
   match execMB p.funs fuel p.main .null (MSt.init p.nvars) with
-  | .ok _ s => some (s.out, .done)
-  | .ctl (.ret _) s => some (s.out, .done)
-  | .ctl _ s => some (s.out, .error)
+  | .ok _ s => some (s.out.reverse, .done)
+  | .ctl (.ret _) s => some (s.out.reverse, .done)
+  | .ctl _ s => some (s.out.reverse, .error)
   | .timeout => none
 
 def run (p : Prog) (fuel : Nat) : Option (List String × Status) := runM (compile p) fuel
